@@ -3,8 +3,47 @@
 package queue
 
 import (
+	"reflect"
+
 	"github.com/emersion/go-smtp"
+	"github.com/foxcpp/maddy/framework/log"
+	"github.com/foxcpp/maddy/framework/module"
 )
 
-// VerifToSMTPErr exposes toSMTPErr to harnesses living in other packages.
-func VerifToSMTPErr(err error) *smtp.SMTPError { return toSMTPErr(err) }
+// VerifToSMTPErr exposes toSMTPErr to harnesses living in other packages.  The call goes through
+// reflection so that a change of the function's signature (further parameters get their zero
+// value) does not keep the harnesses from building: the queue stream observes the conversion
+// through the queue itself in any case.
+func VerifToSMTPErr(err error) *smtp.SMTPError {
+	f := reflect.ValueOf(toSMTPErr)
+	args := make([]reflect.Value, f.Type().NumIn())
+	for i := range args {
+		args[i] = reflect.Zero(f.Type().In(i))
+	}
+	if err != nil {
+		args[0] = reflect.ValueOf(err)
+	}
+	res := f.Call(args)
+	r, _ := res[0].Interface().(*smtp.SMTPError)
+	return r
+}
+
+// VerifNewFastQueue builds a started queue that retries without delay, for harnesses in other
+// packages that put a real target below it.
+func VerifNewFastQueue(location string, tgt, bounce module.DeliveryTarget, maxTries int) (*Queue, error) {
+	mod, _ := NewQueue("", "queue", nil, nil)
+	q := mod.(*Queue)
+	q.initialRetryTime = 0
+	q.retryTimeScale = 1
+	q.postInitDelay = 0
+	q.maxTries = maxTries
+	q.location = location
+	q.Target = tgt
+	q.hostname = "mx.verif.test"
+	q.autogenMsgDomain = "verif.test"
+	q.Log = log.Logger{Out: log.NopOutput{}}
+	if bounce != nil {
+		q.dsnPipeline = bounce
+	}
+	return q, q.start(1)
+}
